@@ -67,7 +67,7 @@ PROPS["C01"] = {
         {"module": "MC_Opt", "constants": {"Small": q(tier, "TRUE", "FALSE")},
          "invariants": ["NoPanic", "DenStable", "EngInLang", "Emit"], "forms": ["mc_opt"], "workers": 12},
     ],
-    "gens": lambda tier: [{"topic": "opt", "n": q(tier, 400, 12000)}],
+    "gens": lambda tier: [{"topic": "opt", "n": q(tier, 700, 12000)}],
     "rules": ["den", "opt_panic", "match_panic", "reopt_differs"],
     "chunk": 300,
 }
